@@ -82,7 +82,12 @@ def main():
             for f in ("patch.diff", "README.md"):
                 if os.path.exists(os.path.join(src, f)):
                     shutil.copy(os.path.join(src, f), dst)
-            json.dump({"id": rid, "checks_silent": sorted(out["checks"].keys()), "suite": out.get("suite_summary", ""),
+            readme = os.path.join(src, "README.md")
+            summary = ""
+            if os.path.exists(readme):
+                summary = " ".join(open(readme).read().split())[:300]
+            json.dump({"id": rid, "kind": "refactor", "summary": summary, "audit_for": sorted(out["checks"].keys()),
+                       "checks_silent": sorted(out["checks"].keys()), "suite": out.get("suite_summary", ""),
                        "what_i_ran": "tools/check_refactor.py: patch -p1 on a scratch copy, go build ./..., tools/baseline.sh (stable tests still pass), verifchk for each listed check (all exit 0)"},
                       open(os.path.join(dst, "meta.json"), "w"), indent=1)
 
